@@ -118,6 +118,16 @@ QosStrayNext == steps < MaxSteps /\
   \/ (conn[c1].st = "up" /\ sess[k1].p2in # <<>> /\ \E ty \in {"PUBREC", "PUBCOMP", "PUBACK", "SUBACK", "UNSUBACK"} : Stray(c1, ty, 2))
 QosStraySpec == QosInit /\ [][QosStrayNext]_vars
 
+(* C02, an exchange that spans connections: the incoming QoS 2 queue is part of the session (sess[k].p2in), so with
+   CleanSession 0 a PUBLISH acknowledged with PUBREC on one connection is handed on when its PUBREL arrives on the next
+   connection of that client identifier - once, and not at all after a CleanSession 1 connect in between.  All paths. *)
+QosResumeNext == steps < MaxSteps /\
+  \/ \E cl \in BOOLEAN : Connect(c1, k1, cl, NoWill)
+  \/ \E id \in {1, 2} : Publish2(c1, <<"a">>, FALSE, IF id = 1 THEN "x" ELSE "y", id, FALSE)
+  \/ \E id \in {1, 2} : Pubrel(c1, id)
+  \/ \E how \in {"disconnect", "cut"} : End(c1, how)
+QosResumeSpec == QosInit /\ [][QosResumeNext]_vars
+
 (* C02, many QoS 2 exchanges open at once (the incoming queue grows beyond its 16 entries, also after its head has
    moved): long random behaviours generated with TLC -simulate                                               *)
 Q2Open == {sess[k1].p2in[i].id : i \in 1..Len(sess[k1].p2in)}
@@ -263,7 +273,7 @@ WillSpec == WillInit /\ [][WillNext]_vars
 \* the same with a DISCONNECT whose bytes reach the broker together with the end of the stream
 WillEofNext == steps < MaxSteps /\
   \/ \E cl \in BOOLEAN, w \in {NoWill, W1, W2} : Connect(c1, k1, cl, w)
-  \/ \E how \in {"disconnect-eof", "cut"} : End(c1, how)
+  \/ \E how \in {"disconnect-eof", "pings-disconnect-eof", "cut"} : End(c1, how)
   \/ Subscribe(c1, 1, << <<<<"v">>, 1>> >>)
 WillEofSpec == WillInit /\ [][WillEofNext]_vars
 
@@ -335,6 +345,15 @@ SelNext == steps < MaxSteps /\
   \/ \E kind \in {"auth-k1-clean", "auth-k1-keep", "auth"} : Refuse(c2, kind, "")
   \/ ApiPublish(<<"a">>, 1, FALSE, "x")
 SelSpec == Free(ANames) /\ [][SelNext]_vars
+\* an authenticator that checks the password of user "good": what was accepted once says nothing about the next login
+\* with that name (or that client identifier) - all paths of accepted logins, ends and refused logins, then a probe
+PwNext == steps < MaxSteps /\
+  \/ \E cl \in BOOLEAN : ConnectF(c1, k1, cl, NoWill, "userpass")
+  \/ Subscribe(c1, 1, << <<<<"a">>, 1>> >>)
+  \/ End(c1, "disconnect") \/ End(c1, "cut")
+  \/ \E kind \in {"auth-badpw", "auth-nopw", "auth-k1-badpw"} : \E follow \in {"", "a"} : ((\A d \in Conns : Up(d) => conn[d].cid # k1) /\ Refuse(c2, kind, follow))
+  \/ ApiPublish(<<"a">>, 1, FALSE, "x")
+PwSpec == Free(ANames) /\ [][PwNext]_vars
 \* the same with an authenticator that rejects every login
 AuthNext == steps < MaxSteps /\
   \/ Refuse(c1, "auth", "") \/ Refuse(c1, "auth", "a") \/ Refuse(c1, "level", "")
